@@ -40,6 +40,9 @@ PROGRAMS = {
     "trait_self": ("#[::entrait::entrait]\n    pub trait {TR} {{ fn h1(&self, target: i64, this: i64) -> i64; async fn h2(&self, result: i64) -> i64; }}\n"
                    "    pub struct App;\n    impl {TR} for App {{ fn h1(&self, a: i64, b: i64) -> i64 {{ a * 10 + b }} async fn h2(&self, r: i64) -> i64 {{ r + 1 }} }}",
                    ['let app = ::entrait::Impl::new(App);', 'rt::out("r", format!("{}|{}", {TR}::h1(&app, 1, 2), rt::block_on({TR}::h2(&app, 1))));'], "12|2"),
+    "trait_provided": ("#[::entrait::entrait]\n    pub trait {TR}: ::core::marker::Sync {{ fn h0(&self) -> i64; fn h1(&self, target: i64) -> i64 {{ self.h0() * 10 + target }} async fn h2(&self, this: i64) -> i64 {{ self.h0() + this }} }}\n"
+                       "    pub struct App;\n    impl {TR} for App {{ fn h0(&self) -> i64 {{ 1 }} }}",
+                       ['let app = ::entrait::Impl::new(App);', 'rt::out("r", format!("{}|{}", {TR}::h1(&app, 2), rt::block_on({TR}::h2(&app, 1))));'], "12|2"),
     "trait_self_ms": ("#[::entrait::entrait(?Send)]\n    pub trait {TR} {{ async fn h2(&self, result: i64) -> i64; }}\n"
                       "    pub struct App;\n    impl {TR} for App {{ async fn h2(&self, r: i64) -> i64 {{ r + 1 }} }}",
                       ['let app = ::entrait::Impl::new(App);', 'rt::out("r", rt::block_on({TR}::h2(&app, 1)));'], "2"),
@@ -128,7 +131,7 @@ def enumerate_states(tier):
     return states, len(states) - len(PROGRAMS), dict(programs=list(PROGRAMS), decoys=list(DECOYS), trait_names=NAMES)
 
 
-STAMP_IDENTS = ["f1", "f2", "f3", "f4", "f5", "g1", "g2", "h1", "h2", "h", "k", "k2", "m", "deps", "c", "target", "this", "result", "inner", "fut", "tmp", "delegate"]
+STAMP_IDENTS = ["h0", "f1", "f2", "f3", "f4", "f5", "g1", "g2", "h1", "h2", "h", "k", "k2", "m", "deps", "c", "target", "this", "result", "inner", "fut", "tmp", "delegate"]
 STAMPS = ["mr_none", "mr_tr", "mr_idents", "mr_both", "mr_attr_inside", "mr_item_inside"]
 
 
